@@ -11,6 +11,7 @@ P = {
     "C01.d": "model parser wraps the start rule with EOF and every parser option of the metamodel is forwarded under its own name",
     "C01.e": "attribute default table of _init_obj_attrs agrees with the documented defaults; python_type covers the base types",
     "C01.f": "visitor methods subscript/iterate only non-terminal nodes and every visit_* names a grammar rule",
+    "C01.h": "a suppressed rule reference is wrapped whether or not the referenced rule still had to be resolved",
     "C01.g": "use_regexp_group: group 1 is the value iff the option is on and the *pattern* has exactly one group (not a property of the individual match)",
   },
   declined="acceptance 'exactly when the PEG semantics accept', whitespace/comment skipping, backtracking, suppression and model equality over all grammars x inputs: properties of Arpeggio's interpreter, not of code shape",
@@ -180,6 +181,9 @@ P = {
     "C17.b": "load_model loads only when neither repository has the file, otherwise returns the cached model",
     "C17.c": "ImportURI lookup order: own model, local models, builtin models, first hit",
     "C17.d": "file keys are abspath-normalised on every store and lookup; synthetic keys are not looked up through a normalising API",
+    "C17.f": "the repository loaders register the importing model before they load anything (dominance on the path with an importer)",
+    "C17.g": "ImportURI connects a model to the metamodel's global repository whenever there is one (no further condition)",
+    "C17.h": "with a global repository the cache is consulted for every load, direct or nested",
     "C17.e": "ImportURI recognises an object found in the own / a loaded / a builtin model by None-test, so the documented lookup order is not skipped for falsy objects",
   },
   declined="identity of cross-file targets and file-open counts for arbitrary import graphs",
